@@ -11,11 +11,12 @@
 //          | (forget d x...) | (forget1 d x) | (project d x...) | (rename d (x...) (y...))
 //          | (expand d x y) | (join d a b) | (meet d a b) | (widen d a b) | (narrow d a b)
 //          | (widenth d a b (ts k...)) | (select d x <cst> <lin> <lin>) | (set d x <itv>)
-//          | (cast d zext|sext|trunc x y) | (entails d <cst>) | (leq d a) | (evalx d <lin>)
+//          | (cast d zext|sext|trunc x y) | (entails d <cst>) | (leq d a) | (at d x)
+//          | (joineq d a) | (meeteq d a)
 //   <z>   ::= variable `vK` or integer constant ; <lin> ::= (lin c (k vI) ...)
 //   <cst> ::= (le <lin>) | (lt <lin>) | (eq <lin>) | (ne <lin>)        meaning  lin ⋈ 0
 // result  : one item per op:  (s <isbot> <istop> (b (vI lb ub)...) (cs <cst>...) <q>)
-//   <q> = answer of a query op (entails, leq: 0/1; evalx: interval), `-` otherwise;
+//   <q> = answer of a query op (entails, leq: 0/1; at: interval), `-` otherwise;
 //   `(err)` if the op raised CRAB_ERROR (the history stops there).
 #include "common.hpp"
 #include "crab_lang.hpp"
@@ -422,7 +423,8 @@ std::string gen(Rng &r, const Args &a) {
       o << "))";
     } else if (k < 87) o << " (narrow " << d << " " << r.below(NP) << " " << r.below(NP) << ")";
     else if (k < 88) o << " (" << (r.coin() ? "joineq " : "meeteq ") << d << " " << r.below(NP) << ")";
-    else if (k < 91) o << " (leq " << d << " " << r.below(NP) << ")";
+    else if (k < 90) o << " (leq " << d << " " << r.below(NP) << ")";
+    else if (k < 91) o << " (at " << d << " " << V(r.below(NV)) << ")";
     else if (k < 94) o << " (copy " << d << " " << r.below(NP) << ")";
     else if (k < 96) o << " (select " << d << " " << V(r.below(nv)) << " " << gen_cst(r, nv) << " " << gen_lin(r, nv, 2) << " " << gen_lin(r, nv, 2) << ")";
     else if (k < 97) o << " (set " << d << " " << V(r.below(nv)) << " " << gen_itv(r) << ")";
